@@ -986,6 +986,25 @@ func (f *Frugal) IsEnum(t *Type) bool {
 	return false
 }
 
+// isException indicates if the underlying Type is an exception.
+func (f *Frugal) isException(t *Type) bool {
+	t = f.UnderlyingType(t)
+	frugal := f
+	if include := t.IncludeName(); include != "" {
+		parsed, ok := f.ParsedIncludes[include]
+		if !ok {
+			return false
+		}
+		frugal = parsed
+	}
+	for _, exception := range frugal.Exceptions {
+		if t.ParamName() == exception.Name {
+			return true
+		}
+	}
+	return false
+}
+
 func (f *Frugal) assignFrugal() {
 	for _, scope := range f.Scopes {
 		scope.assignScope()
@@ -1371,6 +1390,10 @@ func (f *Frugal) validateServiceTypes(service *Service, includes map[string]*Fru
 		for _, field := range method.Exceptions {
 			if !f.isValidType(field.Type) {
 				return fmt.Errorf("Invalid exception type %s for %s.%s",
+					field.Type.Name, service.Name, method.Name)
+			}
+			if !f.isException(field.Type) {
+				return fmt.Errorf("Invalid exception type %s for %s.%s: not an exception",
 					field.Type.Name, service.Name, method.Name)
 			}
 		}
